@@ -923,6 +923,43 @@ def e2e_program(nthreads, iters, nested):
     return "\n".join(src) + "\n", expected
 
 
+def e2e_forkexec_program(pre, post):
+    """parent: pw(); fork(); wait.  child: `pre` calls of cb(), then exec of the same binary (same tid, new
+    libmcount session) which makes `post` calls of ca() - more than one trace buffer.  The child's <tid>.dat
+    must be [pre-exec records][post-exec records] in that order (flush_old_shmem at the TASK_START of the new image)"""
+    src = """#include <string.h>
+#include <sys/wait.h>
+#include <unistd.h>
+#define LEAF(n) __attribute__((noinline)) void n(void) { asm volatile("" ::: "memory"); }
+LEAF(pw) LEAF(cb) LEAF(ca) LEAF(cz)
+int main(int argc, char **argv)
+{
+	if (argc > 1 && !strcmp(argv[1], "child")) {
+		for (int i = 0; i < %d; i++) ca();
+		cz();
+		return 0;
+	}
+	pw();
+	pid_t pid = fork();
+	if (pid == 0) {
+		for (int i = 0; i < %d; i++) cb();
+		execl(argv[0], argv[0], "child", (char *)0);
+		_exit(9);
+	}
+	int st; waitpid(pid, &st, 0);
+	pw();
+	return 0;
+}
+""" % (post, pre)
+    expected = {
+        "main": [(0, 0, "main"), (0, 1, "pw"), (1, 1, "pw"), (0, 1, "pw"), (1, 1, "pw"), (1, 0, "main")],
+        # the forked child inherits main's frame (ENTRY already written by the parent) and never returns from it
+        "cb": [(0, 1, "cb"), (1, 1, "cb")] * pre + [(0, 0, "main")] + [(0, 1, "ca"), (1, 1, "ca")] * post
+              + [(0, 1, "cz"), (1, 1, "cz"), (1, 0, "main")],
+    }
+    return src, expected
+
+
 def e2e_decode(d, exe):
     """independent decoder: {tid: (records, whole)}; a record is (type, depth, name) or ("L", n)"""
     from vf.core import sh
@@ -1014,11 +1051,17 @@ def e2e(ctx, objdir):
         ctx.broken("c03_shmfail.c does not compile", e[-500:])
         return
     nlost_runs = 0
-    for pi in range(ctx.n(5, 24)):
-        lossy = pi % 2 == 1
+    nfx = ctx.n(2, 6)
+    for pi in range(ctx.n(5, 24) + nfx):
+        forkexec = pi < nfx
+        lossy = (not forkexec) and pi % 2 == 1
         nth = rng.choice([1, 2, 3, 4])
         iters = [rng.choice([300, 900, 2000]) for _ in range(nth + 1)]
-        src, expected = e2e_program(nth, iters, nested=not lossy)
+        if forkexec:
+            nth = 1
+            src, expected = e2e_forkexec_program(rng.choice([1, 3, 40]), rng.choice([300, 700, 2000]))
+        else:
+            src, expected = e2e_program(nth, iters, nested=not lossy)
         cfile = os.path.join(work, "p%d.c" % pi)
         exe = os.path.join(work, "p%d" % pi)
         open(cfile, "w").write(src)
@@ -1032,7 +1075,7 @@ def e2e(ctx, objdir):
         if lossy:
             frm = 2 * (nth + 1) + rng.choice([0, 1, 3])
             env = {"LD_PRELOAD": lib, "C03_SHMFAIL_FROM": str(frm), "C03_SHMFAIL_TO": str(frm + rng.choice([2, 8, 40, 100000]))}
-        bsz = rng.choice(["4k", "4k", "4k", "8k", "64k"])
+        bsz = "4k" if forkexec else rng.choice(["4k", "4k", "4k", "8k", "64k"])
         rc, o, e = sh(["timeout", "60", uft, "record", "--no-pager", "--no-event", "--no-libcall", "-b", bsz,
                        "--num-thread", str(nw), "--libmcount-path=" + objdir, "-d", dd, exe], timeout=90, env=env)
         rep = {"mode": "e2e", "program": src, "writers": nw, "buffer": bsz, "env": env, "stderr": e[-600:]}
@@ -1045,6 +1088,8 @@ def e2e(ctx, objdir):
             if "LOST" in line and "records" in line:
                 warned += int(line.split("LOST")[1].split()[0])
         tags = ["e2e", "e2e:threads=%d" % (nth + 1), "e2e:writers=%d" % nw, "e2e:-b" + bsz, "e2e:lossy" if lossy else "e2e:lossless"]
+        if forkexec:
+            tags.append("e2e:fork+exec(same tid, two sessions)")
         ok = len(got) == len(expected)
         why = "" if ok else "%d data files for %d threads" % (len(got), len(expected))
         total_markers = 0
